@@ -650,12 +650,12 @@ def damage(rng, t):
 
 KINDS = ["ValueFunction", "ResourceFunction", "Workflow"]
 HEALTHY = {("ValueFunction", "vf-ok-a"), ("ValueFunction", "vf-ok-b"), ("ResourceFunction", "rf-ok"),
-           ("Workflow", "wf-sub")}
+           ("Workflow", "wf-sub"), ("Workflow", "wf-unready")}
 UNHEALTHY = {("ValueFunction", "vf-bad"), ("Workflow", "wf-bad")}
 NAMES_BY_KIND = {
     "ValueFunction": ["vf-ok-a", "vf-ok-a", "vf-ok-b", "vf-ok-b", "vf-bad", "vf-missing", "rf-ok"],
     "ResourceFunction": ["rf-ok", "rf-ok", "rf-ok", "rf-missing", "vf-ok-a"],
-    "Workflow": ["wf-sub", "wf-sub", "wf-bad", "wf-missing"],
+    "Workflow": ["wf-sub", "wf-sub", "wf-bad", "wf-missing", "wf-unready"],
 }
 LABEL_POOL = ["config", "base_1", "Net", "db2", "_x9", "step_one", "a1b", "zz_top", "K8s", "svc", "n_2", "Q_q",
               "123", "9lives"]
@@ -695,6 +695,9 @@ def world_setup():
     ok.append(put(Workflow, prepare_workflow, "wf-sub", {
         "steps": [{"label": "only", "ref": {"kind": "ValueFunction", "name": "vf-ok-b"},
                    "inputs": {"p": "=parent.sub_in"}}]}))
+    # prepared (a Workflow tuple, so it loads as Logic) although its own steps are not ready
+    ok.append(put(Workflow, prepare_workflow, "wf-unready", {
+        "steps": [{"label": "only", "ref": {"kind": "ValueFunction", "name": "vf-never"}}]}))
     bad.append(put(Workflow, prepare_workflow, "wf-bad", {"steps": "nope"}))
     for o in ok:
         assert is_unwrapped_ok(o), f"world setup: expected a prepared resource, got {o!r}"
@@ -751,6 +754,8 @@ def gen_workflow(rng, weird=False):
     labels = rng.sample(LABEL_POOL, n)
     if n >= 2 and rng.random() < 0.06:
         labels[rng.randrange(1, n)] = labels[0]                    # duplicate label
+    if rng.random() < 0.03:
+        labels[rng.randrange(n)] = "<missing label>"               # the sentinel _load_step uses for "no label"
     mode = rng.choice(["good", "good", "good", "later", "self", "unknown", "mixed"])
     clean = rng.random() < 0.45        # all Logic healthy, no injected syntax errors
     steps, planted = [], []
